@@ -1078,7 +1078,7 @@ Proof.
 Qed.
 
 Lemma c8_politeb_sound h : c8_politeb h = true ->
-  polite c8req (fun q => rq_method (q_req q)) (fun q => header s_content_length (q_req q)) (fun q => negb (q_nohost q)) h.
+  polite c8req (fun q => rq_method (q_req q)) c8_content_length (fun q => negb (q_nohost q)) h.
 Proof.
   unfold c8_politeb, polite. intros H. repeat (apply andb_true_iff in H; destruct H as [H ?]).
   split; [assumption|]. split; [intros E; rewrite E in *; discriminate|]. lia.
@@ -1086,7 +1086,7 @@ Qed.
 
 Lemma c8_hyps_sound cfg : forall hs st, c8_hyps cfg st hs = true ->
   run_ok c8req c8_state (fun st q => c8_app cfg st (q_req q)) st hs /\
-  Forall (polite c8req (fun q => rq_method (q_req q)) (fun q => header s_content_length (q_req q)) (fun q => negb (q_nohost q))) hs.
+  Forall (polite c8req (fun q => rq_method (q_req q)) c8_content_length (fun q => negb (q_nohost q))) hs.
 Proof.
   induction hs as [|h hs IH]; intros st H; [split; [exact Logic.I | constructor]|].
   cbn [c8_hyps] in H. apply andb_true_iff in H as [Hp H]. apply c8_politeb_sound in Hp.
@@ -1115,7 +1115,7 @@ Lemma checked_history_lemma cfg reqs :
                              (written (map Some ss)) = Some (map observable ss).
 Proof.
   intros H. destruct (c8_hyps_sound cfg _ _ H) as [Hrun Hp]. unfold c8_run.
-  apply (conn_polite_path c8req c8_state (fun q => rq_method (q_req q)) (fun q => header s_content_length (q_req q))
+  apply (conn_polite_path c8req c8_state (fun q => rq_method (q_req q)) c8_content_length
            (fun q => negb (q_nohost q)) q_raw_head (fun st q => c8_app cfg st (q_req q)) hardcoded_error_body
            (fun _ h => h) TOO_MANY (fun q => package_id_ok) _ _ Hrun Hp).
 Qed.
@@ -1124,7 +1124,7 @@ Qed.
 Lemma c8_hyps_closing_sound cfg : forall hs st k n, c8_hyps_closing cfg st hs k = Some n ->
   exists pre h post, hs = pre ++ h :: post /\ n = (k + length pre + 1)%nat /\
     run_ok c8req c8_state (fun st q => c8_app cfg st (q_req q)) st pre /\
-    Forall (polite c8req (fun q => rq_method (q_req q)) (fun q => header s_content_length (q_req q)) (fun q => negb (q_nohost q)))
+    Forall (polite c8req (fun q => rq_method (q_req q)) c8_content_length (fun q => negb (q_nohost q)))
            (pre ++ [h]) /\
     h_action h = APassed /\
     reply_ok (snd (fst (c8_app cfg (app_after c8req c8_state (fun st q => c8_app cfg st (q_req q)) st pre) (q_req (h_q h))))) /\
@@ -1163,7 +1163,7 @@ Lemma checked_closing_history_lemma cfg reqs n :
       = Some (map observable (ss ++ [s])).
 Proof.
   intros H. destruct (c8_hyps_closing_sound cfg _ _ _ _ H) as (pre & h & post & E & En & Hrun & Hp & Ha & Hr & Hu).
-  destruct (closing_history_lemma c8req c8_state (fun q => rq_method (q_req q)) (fun q => header s_content_length (q_req q))
+  destruct (closing_history_lemma c8req c8_state (fun q => rq_method (q_req q)) c8_content_length
               (fun q => negb (q_nohost q)) q_raw_head (fun st q => c8_app cfg st (q_req q)) hardcoded_error_body
               (fun _ h => h) TOO_MANY (fun q => package_id_ok) pre (c8_state0 cfg) h Hrun Hp Ha Hr Hu)
     as (ss & s & E1 & E2 & E3 & E4 & E5).
